@@ -2,7 +2,6 @@ package checks
 
 import (
 	"fmt"
-	"go/token"
 	"go/types"
 	"sort"
 	"strings"
@@ -234,41 +233,35 @@ func checkMerkle(p *core.Program, r *core.Report, ctx *circuitCtx, mt *tf.Term, 
 		return nil
 	}
 	mr.StepTerm = next
-	// loop range: i = 1 .. len(Seq)-1
-	iv := &tf.Term{K: tf.KIndVar, Loop: loop, Phi: loop.IV}
-	rng, ok := loop.Range(iv)
-	okRange := ok
-	if ok {
-		f, isC := tf.IntConst(rng.First)
-		bl := rng.Bound
-		okRange = isC && f == 1 && rng.Step == 1 && rng.Off == 0 && rng.CondOp == token.LSS &&
-			bl.K == tf.KLen && isRecvField(bl.Args[0], mr.SeqField)
-	}
-	r.Check(okRange, rule, name+": level loop range", ctx.posOf(next, g), "i runs 1..len($g."+mr.SeqField+")-1", "the level loop does not visit exactly the indices 1..len("+mr.SeqField+")-1: a level would be skipped or the leaf hashed with itself")
-	// classify step operands
+	// classify step operands: the running node, the sibling Seq[s] and the direction bit bits[d], with s and d affine in the
+	// loop counter
 	var bad []string
+	var sIdx, dIdx *tf.Term
 	for i, fn := range next.Names {
 		a := next.Args[i]
 		switch {
 		case a.K == tf.KMuVar && a.Loop == loop:
 			mr.Acc = fn
 		case a.K == tf.KIdx && isRecvField(a.Args[0], mr.SeqField):
-			if d, ok := tf.AffDiff(a.Args[1], iv); ok && d == 0 {
-				mr.Sib = fn
-			} else {
-				bad = append(bad, fmt.Sprintf("%s indexes %s at %s (expected i)", fn, mr.SeqField, describe(a.Args[1])))
-			}
+			mr.Sib, sIdx = fn, a.Args[1]
 		case a.K == tf.KIdx && isRecv(a.Args[0]):
-			if d, ok := tf.AffDiff(a.Args[1], iv); ok && d == -1 {
-				mr.Dir = fn
-				mr.DirField, _ = recvFieldName(a.Args[0])
-			} else {
-				bad = append(bad, fmt.Sprintf("%s indexes the direction bits at %s (expected i-1)", fn, describe(a.Args[1])))
-			}
+			mr.Dir, dIdx = fn, a.Args[1]
+			mr.DirField, _ = recvFieldName(a.Args[0])
 		default:
 			bad = append(bad, fn+"="+describe(a))
 		}
 	}
+	// level s runs over 1..len(Seq)-1 and uses direction bit s-1
+	okRange := false
+	if sIdx != nil && dIdx != nil {
+		if d, ok := tf.AffDiff(sIdx, dIdx); !ok || d != 1 {
+			bad = append(bad, fmt.Sprintf("level %s of %s is paired with direction bit %s (expected the bit one below the level)", describe(sIdx), mr.SeqField, describe(dIdx)))
+		}
+		if lo, hi, ok := segmentOf(sIdx, loop); ok {
+			okRange = isConstInt(lo, 1) && tf.Eq(hi, tf.Len(tf.Field(g.Ev.Params[0], mr.SeqField)))
+		}
+	}
+	r.Check(okRange, rule, name+": level loop range", ctx.posOf(next, g), "levels 1..len($g."+mr.SeqField+")-1", "the level loop does not visit exactly the indices 1..len("+mr.SeqField+")-1: a level would be skipped or the leaf hashed with itself")
 	if mr.Acc == "" || mr.Sib == "" || mr.Dir == "" || len(bad) > 0 {
 		r.Violation(rule, name+": step operands", ctx.posOf(next, g), "step operands are not {running node, %s[i], bits[i-1]}: %s (acc=%q sib=%q dir=%q)", mr.SeqField, strings.Join(bad, "; "), mr.Acc, mr.Sib, mr.Dir)
 		return nil
